@@ -14,8 +14,10 @@ SUBPARTS = {
     # group -> list of (accessor expression on Map<G> o, C++ type of value assigned, [lo, hi) scalar range written, nvals)
     "SE2": [("o.so2()", "smooth::SO2d", 2, 4), ("o.r2()", "Eigen::Vector2d", 0, 2)],
     "SE3": [("o.so3()", "smooth::SO3d", 3, 7), ("o.r3()", "Eigen::Vector3d", 0, 3)],
-    "Galilei": [("o.so3()", "smooth::SO3d", 7, 11), ("o.r3_v()", "Eigen::Vector3d", 0, 3), ("o.r3_p()", "Eigen::Vector3d", 3, 6)],
-    "SE_2_3": [("o.so3()", "smooth::SO3d", 6, 10), ("o.template r3<0>()", "Eigen::Vector3d", 0, 3), ("o.template r3<1>()", "Eigen::Vector3d", 3, 6)],
+    "Galilei": [("o.so3()", "smooth::SO3d", 7, 11), ("o.r3_v()", "Eigen::Vector3d", 0, 3), ("o.r3_p()", "Eigen::Vector3d", 3, 6), ("o.r1_t()", "Eigen::Matrix<double,1,1>", 6, 7)],
+    "SE_2_3": [("o.so3()", "smooth::SO3d", 6, 10), ("o.template r3<0>()", "Eigen::Vector3d", 0, 3), ("o.template r3<1>()", "Eigen::Vector3d", 3, 6),
+               ("o.r3(0)", "Eigen::Vector3d", 0, 3), ("o.r3(1)", "Eigen::Vector3d", 3, 6)],
+    "SE_1_3": [("o.so3()", "smooth::SO3d", 3, 7), ("o.r3(0)", "Eigen::Vector3d", 0, 3)],
 }
 BUNDLE = ("smooth::Bundle<smooth::SO3d, Eigen::Vector3d, smooth::SE2d>", [("o.template part<0>()", "smooth::SO3d", 0, 4), ("o.template part<1>()", "Eigen::Vector3d", 4, 7),
                                                                             ("o.template part<2>()", "smooth::SE2d", 7, 11)], 11)
@@ -245,7 +247,7 @@ def job_bundle(tier):
 def main(tier):
     run = check.Run(PID, tier)
     B = G.BASIC
-    groups = [B["SO2"], B["SO3"], B["SE2"], B["SE3"], B["C1"], B["Galilei"], B["SE_2_3"]]
+    groups = [B["SO2"], B["SO3"], B["SE2"], B["SE3"], B["C1"], B["Galilei"], B["SE_1_3"], B["SE_2_3"]]
     if tier == "thorough":
         groups += grouptu.bundle_shapes("quick")
     jobs = [(job, (g, tier)) for g in groups] + [(job_bundle, (tier,))]
